@@ -18,6 +18,8 @@ import (
 type hnConn struct {
 	in   []byte
 	peer *hnConn
+	// seg > 0: a Read hands out at most seg bytes (a transport that delivers a write in several segments)
+	seg int
 }
 
 func hnPipe() (*hnConn, *hnConn) {
@@ -29,6 +31,9 @@ func hnPipe() (*hnConn, *hnConn) {
 func (c *hnConn) Read(p []byte) (int, error) {
 	if len(c.in) == 0 {
 		return 0, io.EOF
+	}
+	if c.seg > 0 && len(p) > c.seg {
+		p = p[:c.seg]
 	}
 	n := copy(p, c.in)
 	c.in = c.in[n:]
